@@ -675,10 +675,10 @@ func emit(in input, em *lib.Emitter, id string) {
 
 // ---------------------------------------------------------------- generators
 
-func sp(s string) *string     { return &s }
-func lp(l ...string) *[]string { return &l }
-func ip(i int) *int           { return &i }
-func bp(b bool) *bool         { return &b }
+func sp(s string) *string      { return &s }
+func lp(l ...string) *[]string { l = append([]string{}, l...); return &l } // never a nil slice: survives the JSON round trip of --replay
+func ip(i int) *int            { return &i }
+func bp(b bool) *bool          { return &b }
 
 func addr(r *lib.Rng) string { return fmt.Sprintf("0x%x", r.Bytes(20)) }
 func peer(r *lib.Rng) string {
@@ -826,6 +826,9 @@ func main() {
 						if o.Tier == "quick" && len(nets) >= 2 && (n+int(o.Seed))%4 != 0 {
 							continue // the quick tier takes a seeded quarter of the multi-flag combinations
 						}
+						if o.Tier == "quick" && len(nets) < 2 && mode == "direct" && (n+int(o.Seed))%2 != 0 {
+							continue // ... and a seeded half of the direct calls with at most one flag
+						}
 						in := input{Kind: "read", Mode: mode, Net: nets, File: "good", Defaults: "populated", Validate: re.Chance(1, 2)}
 						in.Peers = listState(sp_, re)
 						in.Electrum = strState(se, func() string { return eurl(re) })
@@ -854,7 +857,7 @@ func main() {
 	// ---- random cross-field combinations (every field and every contract independently), explicit
 	//      empty values, malformed addresses, missing files, missing required values, both default sets
 	rr := rng.Fork("random")
-	count := o.Count(400, 4000)
+	count := o.Count(260, 4000)
 	for k := 0; k < count; k++ {
 		in := input{Kind: "read", File: "good", Defaults: "populated"}
 		switch x := rr.Intn(20); {
@@ -933,7 +936,7 @@ func main() {
 	em.Close("a read case is one ReadConfig call (fresh viper, fresh Config) on a generated TOML file and a flag set built by the real "+
 		"cmd.initGlobalFlags/initFlags, through cobra's Execute or directly, followed by one more run of the three resolve functions; "+
 		"exhaustive over {unset,file,flag,both} for peers x Electrum URL x contract addresses x network-flag subsets x call mode "+
-		"(quick: a seeded quarter of the multi-flag combinations), then random cross-field combinations; unit cases call "+
+		"(quick: a seeded quarter of the multi-flag combinations and half of the direct calls with at most one flag), then random cross-field combinations; unit cases call "+
 		"resolveNetworks/resolvePeers/resolveElectrum for all four network types; distinct by the whole case; a read case is non-trivial "+
 		"when ReadConfig reached the resolution stage (no error, or only the final validation error)",
 		map[string]interface{}{"exhaustive_multi_flag": o.Tier != "quick"})
